@@ -16,6 +16,7 @@ def check(chk, thorough=False):
     chk.run('C03.c', 'R-FLOW', 'verdict flow is fail-closed: success only from a pycose verify result, exceptions and malformed result arrays fail, a later success never erases an earlier failure', lambda ob: c03c(tree, ob, 'bib'), floor=8)
     chk.run('C03.e', 'R-TRUTH', 'the AAD is rebuilt from decoded blocks, so decoding must preserve every bit of flags and values (= C02.e)', lambda ob: _c02e(tree, ob), floor=20)
     chk.run('C03.f', 'R-NOPATH', 'a verification that raises or reports failure is collected as a security failure of the bundle (= C12.b)', lambda ob: _c12b(tree, ob), floor=8)
+    chk.run('C03.p', 'R-WHO', 'each result is verified with the key it names itself: the additional headers of the operation, shared by all targets, are never written while results are handled', lambda ob: addl_headers_read_only(tree, ob), floor=4)
     chk.run('C03.g', 'R-WHO', 'the verifier takes the scope map and the protected parameters into the AAD exactly as they arrived in the block (no normalising, masking or re-encoding), so any change to them changes the AAD', lambda ob: c03g(tree, ob), floor=8)
     chk.run('C03.h', 'R-GUARD', 'the data a MAC is checked over is the block data as received: parsed payloads are not written back over it before verification (= C02.d)', lambda ob: __import__('sa.props.c02', fromlist=['c02d']).c02d(tree, ob), floor=3)
     chk.run('C03.i', 'R-GUARD', 'the structure check of a security block judges each target by itself: an unmodified block with several targets is not refused (= C12.g)', lambda ob: __import__('sa.props.c12', fromlist=['c12g']).c12g(tree, ob), floor=2)
@@ -430,6 +431,48 @@ def c03d(tree, ob):
     if not nf:
         ob.violate(SEC, fv.qual, 'if not found_chain: raise', 'a missing certificate chain does not stop key selection', fv.func)
 
+
+
+def addl_headers_read_only(tree, ob):
+    """ one CoseSecOpCtx serves every target of a security block.  Its parsed additional headers are defaults for each
+    result message; they are only ever read.  A result handler that merges into that mapping (directly, or through a local
+    that is the same object) leaves the headers of one result -- its key identifier -- as defaults for the next target:
+    a result that names no key is then verified with the key of its neighbour. """
+    MUT = ('update', 'setdefault', 'pop', 'popitem', 'clear', '__setitem__', '__delitem__')
+    n = 0
+    for (r, qual, func) in tree.all_functions([SEC]):
+        if qual.endswith('.extract_secblk'):
+            continue
+        names = set()
+        for st in walk_local(func):
+            if isinstance(st, ast.Assign) and isinstance(st.value, ast.Attribute) and st.value.attr == 'addl_parsed':
+                for t in st.targets:
+                    if isinstance(t, ast.Name):
+                        names.add(t.id)
+        reads = [a for a in walk_local(func) if isinstance(a, ast.Attribute) and a.attr == 'addl_parsed']
+        if not reads:
+            continue
+        n += 1
+
+        def is_it(node):
+            return (isinstance(node, ast.Attribute) and node.attr == 'addl_parsed') or (isinstance(node, ast.Name) and node.id in names)
+        bad = None
+        for x in walk_local(func):
+            if isinstance(x, ast.Call) and isinstance(x.func, ast.Attribute) and x.func.attr in MUT and is_it(x.func.value):
+                bad = x
+            elif isinstance(x, (ast.Assign, ast.AugAssign, ast.Delete)):
+                tg = x.targets if isinstance(x, (ast.Assign, ast.Delete)) else [x.target]
+                for t in tg:
+                    if isinstance(t, ast.Subscript) and is_it(t.value):
+                        bad = x
+                    if isinstance(x, ast.AugAssign) and is_it(t):
+                        bad = x
+        if bad is not None:
+            ob.violate(SEC, qual, src(bad)[:70], 'the additional headers of the security operation (shared by all targets of the block) are changed while one result is handled: what one '
+                       'result carried -- its key identifier -- becomes a default of the next, and a result that names no key verifies with the key of its neighbour', bad, sure=True)
+        else:
+            ob.site(SEC, reads[0], qual + ': additional headers are only read')
+    ob.require(n >= 4, 'readers of addl_parsed: {}'.format(n))
 
 
 def c03g(tree, ob):
